@@ -2,12 +2,21 @@ package streams
 
 import "verifharness/sexp"
 
+// Runner runs one case of a stream on the implementation.
+type Runner func(c *sexp.S, out *Out)
+
+var registry = map[string]Runner{}
+
+// Register adds a stream; called from init functions.
+func Register(stream string, r Runner) { registry[stream] = r }
+
 // Dispatch runs one case on the implementation.
 func Dispatch(stream string, c *sexp.S, out *Out) {
-	switch stream {
-	case "run":
-		Run(c, out)
-	default:
-		out.Put("UNKNOWN-STREAM")
+	if r, ok := registry[stream]; ok {
+		r(c, out)
+		return
 	}
+	out.Put("UNKNOWN-STREAM")
 }
+
+func init() { Register("run", Run) }
